@@ -143,16 +143,18 @@ FaultAlts(cfg, st, obs, emb, nOk(_)) ==
 \* the response to a successful query.  mode "run": an `out` event carrying response data
 \* that decodes to v followed by NL, then a `flush`.  mode "proc": the value is owed to the
 \* transport.  A response that does not fit the writer's remaining room: free.
-RespAlts(cfg, st, obs, v, mode) ==
+RespAlts(cfg, st, obs, v, mode, at) ==
   LET need == Len(Encode(v)) + 1 IN
   IF st.room >= 0 /\ need > st.room THEN {[st |-> Freed(st), cont |-> "abort"]}
   ELSE IF mode = "proc"
-       THEN {[st |-> [st EXCEPT !.owed = Append(@, [v |-> v, at |-> obs[st.i - 1].ix]),
+       THEN {[st |-> [st EXCEPT !.owed = Append(@, [v |-> v, at |-> at]),
                                 !.room = IF @ < 0 THEN @ ELSE @ - need], cont |-> "go"]}
        ELSE IF IsEv(obs, st.i, "out") /\ IsEv(obs, st.i + 1, "flush")
                /\ obs[st.i].b # <<>> /\ Last(obs[st.i].b) = NL /\ Decodes(Front(obs[st.i].b), v)
             THEN {[st |-> [st EXCEPT !.i = @ + 2, !.room = IF @ < 0 THEN @ ELSE @ - Len(obs[st.i].b)], cont |-> "go"]}
             ELSE {}
+
+IsStd(d) == d.beh.k \in {"version", "errnext", "errcount"}
 
 \* all continuations of executing the well-formed unit u at path `path`
 UnitAlts(cfg, st, path, u, obs, emb, mode) ==
@@ -173,13 +175,18 @@ UnitAlts(cfg, st, path, u, obs, emb, mode) ==
                  ELSE {} : k \in 1..n})
          \cup
          \* (a) every parameter delivered: the call, then the handler's outcome
-         (IF IsEv(obs, st.i, "call") /\ obs[st.i].id = id - 1 /\ Len(obs[st.i].args) = n
+         (IF IsStd(d)
+          THEN \* SYSTem:VERSion? / SYSTem:ERRor...? are the library's own functions: there is no
+               \* user handler to observe, only the response
+               LET h == Handler(d, <<>>, st.q) IN
+               RespAlts(cfg, [st EXCEPT !.q = h.q], obs, h.v, mode, IF st.dl = 0 THEN 1000000000 ELSE st.dl - 1)
+          ELSE IF IsEv(obs, st.i, "call") /\ obs[st.i].id = id - 1 /\ Len(obs[st.i].args) = n
              /\ \A k \in 1..n : ArgAllowed(u.args[k], d.args[k], obs[st.i].args[k])
           THEN LET h == Handler(d, obs[st.i].args, st.q)
                    s1 == [st EXCEPT !.i = @ + 1, !.q = h.q]
                IN IF ~h.ok
                   THEN FaultAlts(cfg, s1, obs, emb, LAMBDA ev : ev.n = h.n /\ ev.txt = h.txt)
-                  ELSE IF d.q THEN RespAlts(cfg, s1, obs, h.v, mode)
+                  ELSE IF d.q THEN RespAlts(cfg, s1, obs, h.v, mode, IF mode = "proc" THEN obs[st.i].ix ELSE 0)
                        ELSE {[st |-> s1, cont |-> "go"]}
           ELSE {})
 
@@ -207,7 +214,8 @@ RunFrom(cfg, S, x, pos, obs) ==
        ELSE RunFrom(cfg, UNION {MsgFrom(cfg, st, <<>>, m.units, 1, obs, m.emb, "run") : st \in S},
                     x, m.len + 1, obs)
 
-St0(q, room) == [i |-> 1, q |-> q, free |-> FALSE, room |-> room, owed |-> <<>>]
+\* dl (process mode): index of the first read issued after the current message was complete
+St0(q, room) == [i |-> 1, q |-> q, free |-> FALSE, room |-> room, owed |-> <<>>, dl |-> 0]
 \* the relation: these observed events are an allowed outcome of run(x)
 RunEnd(cfg, q0, room, x, obs) == RunFrom(cfg, {St0(q0, room)}, x, 1, obs)
 Accepts(cfg, q0, room, x, obs) == RunEnd(cfg, q0, room, x, obs) # {}
@@ -287,7 +295,8 @@ ImplRunR(cfg, r, x, pos) ==
                              ImplRunR(cfg, fault(EErr(c, ErrText(c))), x, s.n + 1)
                         ELSE LET vals == [k \in 1..Len(d.args) |-> ImplConv(s.args[k], d.args[k]).v]
                                  h == Handler(d, vals, r.q)
-                                 r1 == [r EXCEPT !.evs = Append(@, ECall(id - 1, vals)), !.q = h.q, !.path = np]
+                                 r1 == [r EXCEPT !.evs = IF IsStd(d) THEN @ ELSE Append(@, ECall(id - 1, vals)),
+                                                  !.q = h.q, !.path = np]
                              IN IF ~h.ok
                                 THEN ImplRunR(cfg, [r1 EXCEPT !.evs = Append(@, EErr(h.n, h.txt)),
                                                      !.q = QPush(@, cfg.K, [n |-> h.n, txt |-> h.txt])], x, s.n + 1)
